@@ -1,4 +1,5 @@
 """C18 — editor analysis survives any text."""
+import json
 import random
 
 import analysis_common as A
@@ -135,7 +136,9 @@ def run(chk):
         for p_ in ps:
             reqs += [L.req_hover(L.URIS[0], p_), L.req_def(L.URIS[0], p_)]
         reqs += [L.req_change(L.URIS[0], t + " "), L.req_sym(L.URIS[0])]
-        ljobs.append({"id": len(ljobs), "op": "lsp", "history": reqs})
+        # the same text again after another one: the same symbols and the same published diagnostics as the first time
+        reqs += [L.req_change(L.URIS[0], "vars { number $other }\n"), L.req_change(L.URIS[0], t), L.req_sym(L.URIS[0])]
+        ljobs.append({"id": len(ljobs), "op": "lsp", "history": reqs, "_nsym": len(reqs) - 1})
         ltexts.append(t)
     louts = runner.run_go(ljobs)
     stats["lsp_sessions"] = len(ljobs)
@@ -147,6 +150,13 @@ def run(chk):
         bad = [st_["panic"][:160] for st_ in steps if "panic" in st_]
         if bad:
             fails.append(({"script": t}, {"lsp": bad[:2]}, None, ["the language server panics on this text: %s" % bad[0]]))
+        elif len(steps) >= 2:
+            first_sym, again_sym = steps[1].get("result"), steps[-1].get("result")
+            pub = lambda st_: sorted(json.dumps(L.canon_notif(n_), sort_keys=True) for n_ in st_.get("notifs", []))
+            if L.canon(first_sym) != L.canon(again_sym):
+                fails.append(({"script": t}, {"first": first_sym, "again": again_sym}, None, ["the same text gives other symbols the second time it is analysed in a session"]))
+            elif pub(steps[0]) != pub(steps[-2]):
+                fails.append(({"script": t}, {"first": pub(steps[0])[:2], "again": pub(steps[-2])[:2]}, None, ["the same text gives other diagnostics the second time it is analysed in a session"]))
     # where the parse diagnostics are: lexer errors and candidate positions of syntax errors (Model/LexAll.lean)
     import lex_model
     ldis, lstats = lex_model.compare([c["script"] for c in cases], gos)
